@@ -159,16 +159,6 @@ MaxSubQos(i, d) ==
 
 Receivers(i) == {d \in AllClientIds(Trace[i]) : Got(i, d, PubOf(i).m)}
 
-(* C03+C06: the receivers are explained by the entitled clients plus one member per matching    *)
-(* shared subscription, for SOME choice of members.                                             *)
-RoutingExplained(i) ==
-    LET p == PubOf(i)
-        E == IF Routed(i) THEN PlainEntitled(i) ELSE {}
-        R == Receivers(i)
-        ok(ch) == /\ R \subseteq E \cup ChosenSet(ch)
-                  /\ \A d \in E \cup ChosenSet(ch) : d \in R \/ Excused(i, d, p.m, MaxSubQos(i, d))
-    IN IF Routed(i) THEN \E ch \in ShChoices(i) : ok(ch) ELSE R = {}
-
 J_C03(i) ==
     LET e == Trace[i] p == PubOf(i) IN
     IF ~IsPubStep(i) \/ p.m = "" THEN <<>> ELSE
@@ -197,10 +187,31 @@ J_C03(i) ==
                         If(v5 /\ ~p.inline /\ q.up # p.up, Cmp("C03.user-properties-changed", d, p.m, Len(q.up)))>>))
        >>)
 
+(* C06 proper: SOME choice of one member per matching shared subscription explains the share-group part *)
+(* of the routing - every receiver that no plain subscription entitles is a chosen member, and every   *)
+(* chosen member took the message (or is excused).  Whether the plainly entitled clients got their     *)
+(* copy is C03's question (J_C03), not this one: a publisher whose own copy is withheld by the         *)
+(* recorded No Local finding must not be reported as a share-group failure.                            *)
+GroupsExplained(i, skip) ==
+    LET p == PubOf(i)
+        E == PlainEntitled(i)
+        R == Receivers(i)
+    IN \E ch \in ShChoices(i) :
+          /\ (R \ E) \subseteq ChosenSet(ch)
+          /\ \A d \in ChosenSet(ch) \ skip : d \in R \/ Excused(i, d, p.m, MaxSubQos(i, d))
+(* the publisher itself, when one of its own matching plain subscriptions has No Local (signature of   *)
+(* the recorded finding NoLocalOrMerge: the merged subscription withholds every copy to the publisher) *)
+NoLocalOverlap(i) ==
+    LET p == PubOf(i) IN
+    {d \in {p.origin} : \E s \in MatchingSubs(Subs(Pre(i)), p.t) : s.c = d /\ s.kind = "client" /\ s.nl}
+
 J_C06(i) ==
     LET e == Trace[i] p == PubOf(i) IN
     IF ~IsPubStep(i) \/ p.m = "" \/ ~Routed(i) THEN <<>> ELSE
-    Cat(<<If(~RoutingExplained(i), Cmp("C06.no-single-member-choice-explains-receivers", p.origin, p.m, Cardinality(Receivers(i)))),
+    Cat(<<If(~GroupsExplained(i, {}),
+             IF GroupsExplained(i, NoLocalOverlap(i))
+             THEN Cmp("C06.chosen-member-withheld-nolocal-overlap", p.origin, p.m, Cardinality(Receivers(i)))
+             ELSE Cmp("C06.no-single-member-choice-explains-receivers", p.origin, p.m, Cardinality(Receivers(i)))),
           ForAll({d \in AllClientIds(e) : WireCopies(e, d, p.m) > 1},
                  LAMBDA d : Cmp("C06.duplicate-delivery", d, p.m, WireCopies(e, d, p.m)))>>)
 
@@ -675,7 +686,11 @@ J_C09(i) ==
                 Cat(<<If(Len(pubs) = 0 /\ stored, Cmp("C09.unacked-not-resent", e.c, r.m, r.pid)),
                       If(Len(pubs) = 0 /\ ~stored /\ r.pid \in Get(g.dsdel, e.c, {}), Cmp("C09.unacked-not-resent-after-deferred-send-deletion", e.c, r.m, r.pid)),
                       If(Len(pubs) = 0 /\ ~stored /\ r.pid \notin Get(g.dsdel, e.c, {}), Cmp("C09.unacked-not-resent-record-gone", e.c, r.m, r.pid)),
-                      If(Len(pubs) > 0 /\ pubs[1].m # r.m, Cmp("C09.resend-different-message", e.c, r.m, r.pid)),
+                      \* (an identifier whose record the deferred-send tail deleted is handed out again while the client still
+                      \*  holds the first message under it: the resend then carries the later message - same recorded finding)
+                      If(Len(pubs) > 0 /\ pubs[1].m # r.m,
+                         IF r.pid \in Get(g.dsdel, e.c, {}) THEN Cmp("C09.unacked-not-resent-after-deferred-send-deletion", e.c, r.m, r.pid)
+                         ELSE Cmp("C09.resend-different-message", e.c, r.m, r.pid)),
                       If(Len(pubs) > 0 /\ ~pubs[1].dup, Cmp("C09.resend-without-dup", e.c, r.m, r.pid))>>)),
           \* queued but never transmitted messages are sent or stay queued
           ForAll({r \in InflightOf(pre, e.c) : r.t = PUBLISH /\ ~(\E q \in ToSet(OutOf(e, e.k)) : q.t = PUBLISH /\ q.pid = r.pid)
@@ -737,7 +752,7 @@ J_C11(i) ==
             ELSE Cmp("C11.receive-maximum-exceeded", c.c, c.k, n))),
       \* inbound: 0x93 only when the client really exceeds the broker's Receive Maximum; QoS 0 never counts
       IF e.ev = "publish" /\ e.err = "" /\ (\E q \in ToSet(OutOf(e, e.k)) : q.t = DISCONNECT /\ q.rc = 147) THEN
-         LET open == Cardinality(Get(g.q2in, e.c, {})) + (IF e.a.qos > 0 /\ ~Qos2Open(e.c, e.a.pid) THEN 1 ELSE 0) IN
+         LET open == Cardinality(Get(g.q2in, e.c, {})) + (IF e.a.qos = 1 \/ (e.a.qos = 2 /\ ~Qos2Open(e.c, e.a.pid)) THEN 1 ELSE 0) IN   \* only a QoS 2 retransmission adds nothing
          If(e.a.qos = 0, Cmp("C11.receive-maximum-applied-to-qos0", e.c, e.a.m, open))
          \o If(e.a.qos > 0 /\ open <= cfg.recv_max,
                IF e.k \in g.rdr THEN Cmp("C11.spurious-receive-maximum-disconnect-after-outbound-pubrec", e.c, e.a.m, open)
